@@ -12,6 +12,7 @@ import itertools
 import sess
 import srv
 import c18_minters as cm
+import c18_salts as cs
 from engine import coq_str, coq_list, coq_opt
 
 RULE = ("providers with 3 clients whose registrations draw subject_type from {absent, public, pairwise, ephemeral}, sector_id / "
@@ -22,7 +23,13 @@ RULE = ("providers with 3 clients whose registrations draw subject_type from {ab
         "order of the dict (library classes PublicID / PairWiseID by dotted name and as class objects, salt given or read from a file; the "
         "library's functions; plain functions by dotted name and as objects, with their own salt or using the session salt; skipped "
         "entries and keys no client uses), the same login sequences and release points; plus the provider's sub_func table itself, probed "
-        "key by key on providers with arbitrary (also cross-plugged) entries.")
+        "key by key on providers with arbitrary (also cross-plugged) entries. "
+        "LIFE OF A DEPLOYMENT: for every way a salt reaches the minters (PublicID / PairWiseID with a given salt; with a salt file that "
+        "exists - plain, trailing newline / CRLF, blanks, empty, CR inside, several lines, non-ASCII, BOM, written by another process; "
+        "with a salt file that does not exist at first start; one file shared by two entries; salt and file both given; the session "
+        "salt through the library's functions; nothing configured; session state handed over by dump / load; a directory in place of "
+        "the file) three provider instances are built one after another from the same configuration; the same users log in at the "
+        "same clients at every instance (all release points), the files are looked at before and after every start-up.")
 ASSUMPTIONS = ["SHA-256 is collision free (hypothesis H_inj of the pairwise theorem)", "urlparse(..).hostname is an environment function; "
                "its values are taken from urllib for the sector sources that occur", "uuid4 values are fresh"]
 
@@ -175,7 +182,7 @@ def handover(ctx, cases):
         rs1 = sess.RealSession(oidc=True, jwt_access=False, client_over=copy.deepcopy(over))
     finally:
         srv.make_server = old_mk
-    rs2 = None
+    rs2 = rs3 = None
     try:
         before = {}
         for u in sess.USERS[:2]:
@@ -204,10 +211,34 @@ def handover(ctx, cases):
             if st != "ephemeral" and g.sub != sub1:
                 ctx.violation("unstable", "after the session state moved to another instance user %s at %s (%s) got another sub" % (u, c, st), rec)
             cases.append((model_case(rs2.ctx.cdb[c], u, "https://%s.example.com/cb" % c, g.sub, salt2), rec))
+        # ---- and on to a third instance (the second one's state, which now holds both its own grants and the first one's)
+        state2 = rs2.sm.dump()
+        srv.make_server = mk
+        try:
+            rs3 = sess.RealSession(oidc=True, jwt_access=False, client_over=copy.deepcopy(over))
+        finally:
+            srv.make_server = old_mk
+        rs3.sm.load(copy.deepcopy(state2))
+        salt3 = rs3.sm.get_salt()
+        for (u, c), sub1 in before.items():
+            o = rs3.op_authz(u, c, ["openid"])
+            if o[0] != "ok" or not o[1]:
+                ctx.notes.append("handover: login on the third instance failed %r" % (o,))
+                continue
+            g = rs3.grants[rs3.tok_grant[o[1][0]]][1]
+            st = rs3.ctx.cdb[c].get("subject_type") or "public"
+            rec = {"handover": "third instance", "user": u, "client": c, "subject_type": st, "sub_before": sub1, "sub_after": g.sub}
+            ctx.case_seen(rec, True)
+            ctx.count("handover-3:%s" % st)
+            if st != "ephemeral" and g.sub != sub1:
+                ctx.violation("unstable", "after the session state moved on to a third instance user %s at %s (%s) got another sub" % (u, c, st), rec)
+            cases.append((model_case(rs3.ctx.cdb[c], u, "https://%s.example.com/cb" % c, g.sub, salt3), rec))
     finally:
         rs1.close()
         if rs2 is not None:
             rs2.close()
+        if rs3 is not None:
+            rs3.close()
 
 
 def other_providers(ctx, cases):
@@ -496,6 +527,193 @@ def one_provider(ctx, cases, si, jwt, over, spec=None, ccases=None, tcases=None,
             rs.close()
 
 
+
+def session_with(sub_func, **kw):
+    """a RealSession whose provider is configured with session_params.sub_func = this very dict (None: key absent)"""
+    if sub_func is None:
+        return sess.RealSession(**kw)
+    old_mk = srv.make_server
+
+    def mk(*a, **k):
+        k["sub_func"] = sub_func
+        return old_mk(*a, **k)
+    srv.make_server = mk
+    try:
+        return sess.RealSession(**kw)
+    finally:
+        srv.make_server = old_mk
+
+
+def login_views(ctx, rs, u, c, jwt):
+    """one complete login of user u at client c through the real endpoints: the sub at every release point (None: the flow failed)"""
+    o = rs.run(("authz", u, c, ["openid", "email", "offline_access"]))
+    if o[0] != "ok":
+        ctx.notes.append("authz failed: %r" % (o,))
+        return None
+    code = o[1][0]
+    rs.run(("tparse", c, ("tok", code), "same"))
+    p = rs.run(("proc", len(rs.parsed) - 1, None))
+    if p[0] != "ok":
+        ctx.notes.append("token request failed: %r" % (p,))
+        return None
+    g = rs.grants[rs.tok_grant[code]][1]
+    views = {"grant": g.sub, "id_token": jwt_payload(rs.tokens[p[1]["id_token"]])["sub"]}
+    at = p[1]["access_token"]
+    ui = rs.run(("userinfo", ("tok", at)))
+    views["userinfo"] = ui[1] if ui[0] == "ok" else None
+    it = rs.run(("introspect", c, ("tok", at)))
+    views["introspection"] = it[3] if it[0] == "active" else None
+    if jwt:
+        views["jwt_access_token"] = jwt_payload(rs.tokens[at]).get("sub")
+    return views
+
+
+N_INSTANCES = 3
+
+
+def one_life(ctx, life, li, lcases, scases):
+    """one deployment: N_INSTANCES provider instances built one after another from the same configuration (restart / further
+    worker), the same users at the same clients at every instance; files and subs of every instance against the model, the subs
+    across the instances against each other (ORACLE, from the property text: stable for the same user at the same client; public
+    equal across clients; pairwise equal within a sector and different between sectors; users never share a sub)"""
+    from idpyoidc.server.exception import ConfigurationError
+    rng = ctx.rng
+    cs.prepare(life)
+    types = list(TYPE_PATTERNS[li % len(TYPE_PATTERNS)])
+    rng.shuffle(types)
+    over = {}
+    for c, st in zip(sess.CLIENTS, types):
+        rec = {}
+        if st:
+            rec["subject_type"] = st
+        sec = rng.choice(SECTORS)
+        if sec:
+            rec[rng.choice(["sector_id", "sector_identifier_uri"])] = sec
+        over[c] = rec
+    jwt = li % 2 == 1
+    desc = cs.describe(life)
+    insts = []
+
+    def sector(c):
+        return host(over[c].get("sector_id") or over[c].get("sector_identifier_uri") or "https://%s.example.com/cb" % c)
+
+    def typ(c):
+        return over[c].get("subject_type") or "public"
+
+    def logins(k, inst, users, tag):
+        rs = inst["rs"]
+        salt = rs.sm.get_salt()
+        for u in users:
+            for c in sess.CLIENTS:
+                views = login_views(ctx, rs, u, c, jwt)
+                if views is None:
+                    continue
+                reg = rs.ctx.cdb[c]
+                rec = dict(desc, instance=k + 1, round=tag, files_before_start=inst["before"], files_after_start=inst["after"],
+                           user=u, client=c, subject_type=reg.get("subject_type"), sector=sector(c), views=views, jwt_access=jwt)
+                ctx.case_seen(rec, all(v is not None for v in views.values()))
+                ctx.count("life-login:%s:instance-%d" % (typ(c), k + 1))
+                if len(set(views.values())) != 1:
+                    ctx.violation("inconsistent-views", "sub differs across release points: %r" % views, rec)
+                sub = views["grant"]
+                fresh = cm.effective_recipe(inst["spec"], typ(c)) is None
+                if not fresh and u in sub:
+                    ctx.violation("uid-in-clear", "sub %r contains the user id %r" % (sub, u), rec)
+                inst["subs"].setdefault((u, c), []).append(sub)
+                redirect = "https://%s.example.com/cb" % c
+                srcs = [x for x in (reg.get("sector_id"), reg.get("sector_identifier_uri"), redirect) if x]
+                hosts = [(x, host(x)) for x in srcs]
+                pre = cm.preimages(inst["spec"], u, salt, [h for _, h in hosts])
+                ht = [(x, hashlib.sha256(x.encode("utf-8")).hexdigest()) for x in pre]
+                lcases.append(("(%s, %s, %s, %s, %s, mkCreg %s %s %s, %s, %s, %s, %s)" % (
+                    cs.coq_pairs(ht), cs.coq_pairs(hosts), cs.coq_dconf(life), cs.coq_draws(inst["draws"]), cs.coq_fs(inst["before"]),
+                    coq_opt(reg.get("subject_type"), cs.S, "pystr"), coq_opt(reg.get("sector_id"), cs.S, "pystr"),
+                    coq_opt(reg.get("sector_identifier_uri"), cs.S, "pystr"),
+                    cs.S(redirect), cs.S(u), cs.S(salt), "None" if fresh else "(Some %s)" % cs.S(sub)), rec))
+    try:
+        for k in range(N_INSTANCES):
+            before = cs.snapshot(life)
+            try:
+                rs = session_with(cs.conf_of(life), oidc=True, jwt_access=jwt, client_over=copy.deepcopy(over))
+            except ConfigurationError:
+                rs = None
+            after = cs.snapshot(life)
+            draws = cs.infer_draws(life, before, after)
+            inst = {"rs": rs, "before": before, "after": after, "draws": draws, "subs": {}, "spec": None}
+            insts.append(inst)
+            rec0 = dict(desc, instance=k + 1, files_before_start=before, files_after_start=after, started=rs is not None)
+            ctx.case_seen(rec0, True)
+            ctx.count("life-instance:%s" % ("started" if rs is not None else "refused to start (ConfigurationError)"))
+            for f, v in before.items():
+                ctx.count("life-file-at-start:%s" % ("missing" if v is None else "not-a-file" if v == "dir" else "exists"))
+            scases.append(("(%s, %s, %s, %s)" % (cs.coq_dconf(life), cs.coq_draws(draws), cs.coq_fs(before),
+                                                 cs.coq_observed(after) if rs is not None else "None"), rec0))
+            if rs is None:
+                continue
+            inst["spec"] = cs.resolved_spec(life, after)
+            logins(k, inst, sess.USERS, "first")
+        # the instance that started first is still running: it goes on handing out what it handed out
+        if insts[0]["rs"] is not None:
+            logins(0, insts[0], sess.USERS[:1], "again-after-the-others-started")
+        # ---- ORACLE across the instances
+        started = [i for i in insts if i["rs"] is not None]
+        if not started:
+            return
+        spec = started[-1]["spec"]
+        allsubs = {}
+        for u in sess.USERS:
+            for c in sess.CLIENTS:
+                if cm.effective_recipe(spec, typ(c)) is None:
+                    continue
+                per = [(k + 1, s) for k, i in enumerate(insts) for s in i["subs"].get((u, c), [])]
+                if not per:
+                    continue
+                allsubs[(u, c)] = per
+                if len(set(s for _, s in per)) != 1:
+                    ctx.violation("unstable", "user %s at client %s (%s): instances built from the same configuration hand out different "
+                                  "subs: %s" % (u, c, typ(c), ", ".join("instance %d: %s" % x for x in per)),
+                                  dict(desc, user=u, client=c, subject_type=typ(c), subs_by_instance=per,
+                                       files_by_instance=[[i["before"], i["after"]] for i in insts]))
+        for u in sess.USERS:
+            for a in sess.CLIENTS:
+                for b in sess.CLIENTS:
+                    if a >= b or (u, a) not in allsubs or (u, b) not in allsubs:
+                        continue
+                    ta, tb = typ(a), typ(b)
+                    sa, sb = set(s for _, s in allsubs[(u, a)]), set(s for _, s in allsubs[(u, b)])
+                    rec = dict(desc, user=u, clients=[a, b], types=[ta, tb], sectors=[sector(a), sector(b)],
+                               subs_by_instance=[allsubs[(u, a)], allsubs[(u, b)]])
+                    if ta == tb == "public" and len(sa | sb) != 1:
+                        ctx.violation("public-differs", "public subs of %s differ between %s and %s over the instances of one deployment" % (u, a, b), rec)
+                    if ta == tb == "pairwise":
+                        if sector(a) == sector(b) and len(sa | sb) != 1:
+                            ctx.violation("pairwise-same-sector-differs", "pairwise subs differ within sector %s over the instances of one "
+                                          "deployment" % sector(a), rec)
+                        if sector(a) != sector(b) and sa & sb:
+                            ctx.violation("pairwise-sectors-equal", "pairwise subs equal across sectors %s / %s" % (sector(a), sector(b)), rec)
+        for a in sess.USERS:
+            for b in sess.USERS:
+                for c in sess.CLIENTS:
+                    if a < b and (a, c) in allsubs and (b, c) in allsubs and set(s for _, s in allsubs[(a, c)]) & set(s for _, s in allsubs[(b, c)]):
+                        ctx.violation("users-share-sub", "users %s and %s share a sub at %s" % (a, b, c), dict(desc, client=c))
+    finally:
+        for i in insts:
+            if i["rs"] is not None:
+                i["rs"].close()
+
+
+def salt_lifecycle(ctx):
+    """every way a salt reaches the subject minters, over the life of a deployment (c18_salts)"""
+    lives = cs.fixed_lives() + [cs.draw_life(ctx.rng, n) for n in range(4 if ctx.quick else 60)]
+    lcases, scases = [], []
+    for li, life in enumerate(lives):
+        ctx.count("lives")
+        one_life(ctx, life, li, lcases, scases)
+    imports = ["Lib.Base", "Lib.PyStr", "Model.Sub"]
+    cs.check_cases(ctx, imports, "start_case", "chk_start", scases, shard=100, label="start")
+    cs.check_cases(ctx, imports, "life_case", "chk_life", lcases, shard=150, label="life")
+
+
 OWN_SALTS = ["tenant-salt-public", "tenant-salt-pairwise", "s", "s\u00e4lt-\u00fc/\u00df", "salt-verif-0123456789"]
 STD_KEYS = ["public", "pairwise", "ephemeral"]
 
@@ -602,6 +820,7 @@ def run(ctx):
     handover(ctx, cases)
     other_providers(ctx, cases)
     configured_providers(ctx, cases)
+    salt_lifecycle(ctx)
     ctx.coq_check_cases(["Lib.Base", "Lib.PyStr", "Model.Sub"], "sub_case", "chk_sub", cases, shard=60, label="sub")
 
 
